@@ -159,10 +159,19 @@ JOBS = {
     "J3": (("src", "two_cfg", "ctxw"), {"factor": 5.0}),
     "FAIL": (("src", "fail"), {}),
     "BADCFG": (("src", "bogus"), {}),
+    # fails inside Pipeline(...) itself (before any process() call): a sweep without variables
+    "BADCTOR": ("<explicit>", {}),
+}
+EXPLICIT_NODES = {
+    "BADCTOR": [{"processor": "VSrc", "parameters": {"value": 2.0}},
+                {"processor": "VMul", "derive": {"parameter_sweep": {"parameters": {"factor": "t"}, "variables": {}, "collection": "FloatDataCollection"}}}],
 }
 
 
 def job_nodes(name: str) -> List[dict]:
+    if name in EXPLICIT_NODES:
+        cfg = harness.load_config({"extensions": ["verif_lib"], "pipeline": {"nodes": EXPLICIT_NODES[name]}})
+        return cfg.nodes
     cfg = harness.load_config(gen.yaml_config(JOBS[name][0]))
     return cfg.nodes
 
@@ -175,7 +184,12 @@ def direct(name: str):
     if name not in _DIRECT:
         from semantiva.pipeline import Pipeline
 
-        real = harness.run_pipeline(Pipeline(job_nodes(name)), None, dict(JOBS[name][1]), None)
+        try:
+            pipe = Pipeline(job_nodes(name))
+        except Exception as exc:  # the pipeline cannot even be constructed: the job must still fail its Future
+            _DIRECT[name] = ("construct", None, dict(JOBS[name][1]), type(exc).__name__)
+            return _DIRECT[name]
+        real = harness.run_pipeline(pipe, None, dict(JOBS[name][1]), None)
         _DIRECT[name] = (real.status, real.data, dict(real.ctx), real.error)
     return _DIRECT[name]
 
@@ -299,11 +313,13 @@ def plans(tier: str):
     """(batch, workers, preemption bound, fine?) — fine = line-level scheduling points inside master and worker modules."""
     if tier == "quick":
         return [(("J1",), 1, 2, False), (("J1", "J2"), 1, 1, False), (("J1", "J2"), 2, 1, False), (("FAIL",), 1, 1, False),
-                (("J1", "FAIL"), 1, 1, False), (("BADCFG", "J1"), 1, 0, False),
+                (("J1", "FAIL"), 1, 1, False), (("BADCFG", "J1"), 1, 0, False), (("BADCTOR",), 1, 1, False), (("J1", "BADCTOR", "J2"), 1, 0, False),
+                (("BADCTOR", "J1"), 2, 0, False),
                 (("J1", "J2"), 1, 1, "worker"), (("FAIL", "J2"), 1, 1, "worker")]
     return [(("J1",), 1, 3, False), (("J1", "J2"), 1, 2, False), (("J1", "J2"), 2, 2, False), (("J1", "J2", "J3"), 2, 1, False), (("FAIL",), 1, 2, False),
             (("J1", "FAIL"), 1, 2, False), (("FAIL", "J2"), 2, 2, False), (("J1", "FAIL", "J3"), 2, 1, False), (("J1", "J2", "FAIL"), 2, 1, False),
             (("FAIL", "J1", "J2"), 1, 1, False), (("BADCFG", "J1"), 2, 1, False), (("J1", "J1"), 2, 2, False),
+            (("BADCTOR",), 1, 2, False), (("J1", "BADCTOR", "J2"), 1, 1, False), (("BADCTOR", "J1"), 2, 1, False), (("J1", "BADCTOR"), 2, 1, "worker"),
             (("J1",), 1, 2, True), (("J1", "J2"), 1, 1, True), (("J1", "J2"), 2, 1, "worker"), (("FAIL", "J2"), 2, 1, "worker"), (("J1", "J2"), 2, 1, True)]
 
 
